@@ -43,13 +43,28 @@ def features(d):
                         fs.add("gradref-href-no-own-stops")
         if nd["tag"] == "use":
             fs.add("use->" + ids.get(nd["ref"], {}).get("tag", "?"))
+    # an explicit initial value under an ancestor that sets the property differently (a wrapper group
+    # inserted in between must not make the explicit value look redundant)
+    from .render import DEFAULTS, _parents, _spec
+    par = _parents(d)
+    for i, nd in enumerate(d["nodes"]):
+        for a in ("fill", "fill-rule", "fill-opacity", "stroke"):
+            v = _spec(nd["at"], a)
+            if v is not None and v == DEFAULTS.get(a):
+                j = par[i]
+                while j is not None:
+                    w = _spec(d["nodes"][j]["at"], a)
+                    if w is not None and w != v:
+                        fs.add("explicit-initial-under-override:" + a)
+                        fs.add("explicit-initial-under-override")
+                    j = par[j]
     return fs
 
 
 def run(out, tier):
     wd = common.workdir("c14")
     try:
-        nbase = 6 if tier == "quick" else 200
+        nbase = 6 if tier == "quick" else 60
         bases = []
         seen = set()
         for f in ["mixed", "grad", "clip", "paint", "struct", "stroke"]:
